@@ -527,7 +527,7 @@ pub fn run(ctx: &mut Ctx) {
     crate::reference::mappings::self_check(&mut srng, 2000);
     crate::reference::metro::self_check(&mut srng);
 
-    let total = if ctx.mode == "miri" { ctx.size(300, 300) } else { ctx.size(1_000_000, 8_000_000) };
+    let total = if ctx.mode == "miri" { ctx.size(160, 160) } else { ctx.size(1_000_000, 8_000_000) };
     for n in ctx.cases("docs", total) {
         let mut rng = ctx.begin("docs", n);
         ctx.eval();
